@@ -166,9 +166,7 @@ func cmpsIn(pk *packages.Package, fd *ast.FuncDecl, fn string, subst map[types.O
 			}
 		}
 		site := cmpSite{fn: fn, pos: be.Pos(), op: be.Op, p: polyAdd(l, r, -1), text: types.ExprString(be), lt: info.TypeOf(be.X), pa: polyAdd(la, ra, -1), pr: pr, pra: pra, uses: uses, full: countingLoop(info, fparents, be), rop: refusalOp(info, fd, fparents, be)}
-		if site.rop == 0 {
-			site.tn, site.en, site.negc = branchNamesOf(info, fparents, be)
-		}
+		site.tn, site.en, site.negc = branchNamesOf(info, fparents, be)
 		out = append(out, site)
 		return true
 	})
@@ -488,6 +486,7 @@ func ruleCmpSpec(c *Ctx) {
 	}
 	// pre-pass: comparisons that some entry accounts for are never near-miss candidates of another entry
 	claimed := map[token.Pos]bool{}
+	accounted := map[token.Pos]bool{} // sites an entry settled on through the renamed / resolved fallback
 	claimedOwn := map[token.Pos]bool{} // accounted for by an entry of the function the comparison is written in
 	claimedByOther := map[token.Pos]bool{}
 	for _, gk := range order {
@@ -546,6 +545,9 @@ func ruleCmpSpec(c *Ctx) {
 			// renamed operands / a local introduced or inlined: the same comparison once locals are named by type or
 			// substituted, not accounted for by another entry
 			if ok, verdict, pos := cmpAbsMatch(g.fn, g.entries, g.atoms, sites, claimed); ok {
+				for _, hp := range cmpAbsHits {
+					accounted[hp] = true
+				}
 				if verdict == "" {
 					c.ok(key, pos, "%s (operands renamed or routed through a local)", specStr)
 				} else {
@@ -718,6 +720,37 @@ func ruleCmpSpec(c *Ctx) {
 			c.ok(key, matched[0].pos, "%s", specStr)
 		}
 	}
+	// closed coverage: in the functions of cmpClosed every comparison that governs a refusal or a skip (and is not a
+	// nil / error / boolean-literal test or a plain counting loop) must be accounted for by an entry. An added early
+	// exit (`if node.Slot <= anchor.Slot { continue }`) is then an unreviewed refusal, whatever it compares.
+	for _, fn := range sortedKeys(cmpClosed) {
+		sites, ok := all[fn]
+		if !ok {
+			c.unm(fn+"[closed]", token.NoPos, "function %s (closed coverage) not found", fn)
+			continue
+		}
+		extra := 0
+		for _, s := range sites {
+			if s.from != "" || s.rop == 0 || s.full || claimed[s.pos] || accounted[s.pos] {
+				continue
+			}
+			nilish := false
+			for _, a := range atomsOf(s.p) {
+				if a == "nil" || a == "true" || a == "false" {
+					nilish = true
+				}
+			}
+			if nilish {
+				continue
+			}
+			extra++
+			c.bad(fmt.Sprintf("%s[closed]#%d", fn, extra), s.pos, "%s refuses or skips on `%s`, a comparison no reviewed entry accounts for: every early exit of this function was read against what the query must return, this one was not (an added pre-filter or guard changes which nodes are answered)", fn, s.text)
+		}
+		if extra == 0 {
+			c.ok(fn+"[closed]", sites[0].pos, "every refusing / skipping comparison of %s is a reviewed one", fn)
+		}
+	}
+
 }
 
 func fmtWant(m map[string]int) string {
@@ -893,7 +926,11 @@ func canonCmp(p Poly, op token.Token) string {
 
 // cmpAbsMatch: every entry of the group has a comparison with the same type-named canonical form among the sites no
 // other entry accounts for. verdict "" = renamed; otherwise the description of a replaced operand.
+// cmpAbsHits: the sites the last successful cmpAbsMatch settled on (for the closed-coverage accounting).
+var cmpAbsHits []token.Pos
+
 func cmpAbsMatch(fn string, entries []cmpSpec, atoms []string, sites []cmpSite, claimed map[token.Pos]bool) (bool, string, token.Pos) {
+	cmpAbsHits = nil
 	used := map[int]bool{}
 	var first token.Pos
 	var gotNamed []string
@@ -914,7 +951,8 @@ func cmpAbsMatch(fn string, entries []cmpSpec, atoms []string, sites []cmpSite, 
 				}
 				// a renamed local (same shape by type, and the same once locals are read through), or the same
 				// comparison with a value moved into / out of a local
-				if (canonCutAbs(sites[i].pa, sites[i].op) == e.abs && (e.ra == "" || canonCutAbs(sites[i].pra, sites[i].op) == e.ra)) || (e.res != "" && canonCut(sites[i].pr, sites[i].op) == e.res) {
+				sameRA := e.ra != "" && canonCutAbs(sites[i].pra, sites[i].op) == e.ra
+				if sameRA || (e.ra == "" && canonCutAbs(sites[i].pa, sites[i].op) == e.abs) || (e.res != "" && canonCut(sites[i].pr, sites[i].op) == e.res) {
 					hit = i
 					break
 				}
@@ -923,6 +961,7 @@ func cmpAbsMatch(fn string, entries []cmpSpec, atoms []string, sites []cmpSite, 
 				return false, "", token.NoPos
 			}
 			used[hit] = true
+			cmpAbsHits = append(cmpAbsHits, sites[hit].pos)
 			if first == token.NoPos {
 				first = sites[hit].pos
 			}
